@@ -8,6 +8,10 @@ Inductive case :=
    (Ext1/Ext2 and document per block) and how it ended; lens = batch lengths produced by the real
    batchLoader for the same request (None = the store process died) *)
 | CFetch (g : cfg) (frs : list frac) (ids : list idsrc) (impl : sres) (lens : option (list N))
+(* the same with injected faults: panic_active = the active fraction's Fetch panics on entry (schedule point
+   "fetch.start"); damaged = names of sealed fractions whose docs file was cut down between stop and start *)
+| CFault (g : cfg) (frs : list frac) (panic_active : bool) (damaged : list N) (ids : list idsrc)
+         (impl : sres) (lens : option (list N))
 (* real docsStream.calcChunkSize on documents of the given sizes (0 = not found); None = it panicked *)
 | CCalc (g : cfg) (sizes : list N) (prev : N) (impl : option N)
 (* ---- unit level, position layer ---- *)
@@ -51,6 +55,15 @@ Definition case_agrees (c : case) : bool :=
       sres_eqb (stream_of ids b) impl
       && match lens, b with
          | Some l, BDone _ => list_eqb N.eqb (batch_lens b) l
+         | None, BCrash => true
+         | _, _ => false
+         end
+  | CFault g frs pa dmg ids impl lens =>
+      let b := batches_gen true false g (map (compile_faulty pa dmg) frs) ids in
+      sres_eqb (stream_of ids b) impl
+      && match lens, b with
+         | Some l, BDone _ => list_eqb N.eqb (batch_lens b) l
+         | Some l, BFail _ => list_eqb N.eqb (batch_lens b ++ [0]) l     (* 0 = the batch carrying the error *)
          | None, BCrash => true
          | _, _ => false
          end
@@ -148,6 +161,14 @@ Fixpoint want_all {A} (l : list (option A)) : option (list A) :=
   | None :: _ => None
   end.
 
+(* entries of a (possibly shorter) stream prefix *)
+Fixpoint prefix_ok (m : stored) (cnt : PositiveMap.t N) (ids : list idsrc) (sent : list (id * option body)) : bool :=
+  match ids, sent with
+  | _, [] => true
+  | s :: ri, (x, d) :: rs => id_eqb (fst s) x && entry_ok m cnt s d && prefix_ok m cnt ri rs
+  | [], _ :: _ => false
+  end.
+
 Definition case_spec_ok (c : case) : bool :=
   match c with
   | CFetch g frs ids impl lens =>
@@ -159,6 +180,24 @@ Definition case_spec_ok (c : case) : bool :=
          | Some l => forallb (fun k => 1 <=? k) l && (fold_right N.add 0 l =? N.of_nat (length ids))
          | None => false
          end
+  (* a fraction whose fetch fails cannot deliver: the request must end with an error, or at least no document
+     stored in such a fraction (and admitted by the hint) may be reported as plainly not found without error *)
+  | CFault g frs pa dmg ids impl lens =>
+      let bad := map f_name (filter (fun f => (pa && negb (f_sealed f)) || existsb (N.eqb (f_name f)) dmg) frs) in
+      let m := corpus frs in
+      let hits (s : idsrc) :=
+        existsb (fun p : N * body => existsb (N.eqb (fst p)) bad && ((snd s =? 0) || (snd s =? fst p)))
+                (st_get m (fst s)) in
+      match impl with
+      | SOk sent =>
+          negb (existsb hits ids) && entries_ok m (counts ids) ids sent
+          && match lens with
+             | Some l => forallb (fun k => 1 <=? k) l && (fold_right N.add 0 l =? N.of_nat (length ids))
+             | None => false
+             end
+      | SErr sent => (pa || negb (is_nil dmg)) && prefix_ok m (counts ids) ids sent
+      | _ => false
+      end
   | CCalc g sizes prev impl =>
       match impl with Some k => (1 <=? k) || (prev =? 0) | None => false end
   | CPack b off impl ub uo =>
